@@ -326,6 +326,10 @@ def spell_arg(rng, node, value, forms=None, risky=False):
             choices.append(("short_adj", [b"-" + cb + value]))
     if forms:
         choices = [c for c in choices if c[0] in forms] or choices
+    if not choices:
+        # only multi-byte short names and a value that cannot be attached/separated: fall back to `-c=v`
+        cb = n["short"][0].encode()
+        choices = [("short_eq", [b"-" + cb + b"=" + value])]
     return rng.choice(choices)
 
 
